@@ -3,6 +3,7 @@ import ImmuModel.Sql.KeyEnc
 import ImmuModel.Sql.ValueCodec
 import ImmuModel.Tx.Metadata
 import ImmuModel.Tx.HeaderCodec
+import ImmuModel.Tx.Export
 namespace Driver.C15
 open ImmuModel ImmuModel.GoInt ImmuModel.Sql ImmuModel.Tx
 
@@ -102,6 +103,41 @@ def fmtHdr (h : TxHdr) : String :=
   s!"{h.id} {h.ts} {h.blTxID} {Bytes.toHexTok h.blRoot} {Bytes.toHexTok h.prevAlh} {h.version} " ++
   (match h.md with | none => "nil" | some md => "md " ++ fmtTxMd md) ++
   s!" {h.nentries} {Bytes.toHexTok h.eh}"
+
+/-- kv-metadata token of an exported entry: `-` = no metadata (`e.md == nil`), else `d:x:ni` with
+`d`,`ni` ∈ {0,1} and `x` = `-` or the unix seconds of `expiresAt` (`0:-:0` = non-nil, no attribute). -/
+def parseKvmdTok (s : String) : Option (Option KVMd) :=
+  if s == "-" then some none
+  else match s.splitOn ":" with
+    | [d, x, ni] =>
+      let ex : Option (Option Int) := if x == "-" then some none else x.toInt?.map some
+      ex.map (fun ex => some { deleted := d == "1", expiresAt := ex, nonIndexable := ni == "1" })
+    | _ => none
+
+def fmtKvmdTok : Option KVMd → String
+  | none => "-"
+  | some md => s!"{b01 md.deleted}:" ++ (match md.expiresAt with | none => "-" | some t => toString t) ++ s!":{b01 md.nonIndexable}"
+
+/-- `k` groups of `key kvmd payload`. -/
+def parsePEntries : Nat → List String → Option (List PEntry × List String)
+  | 0, rest => some ([], rest)
+  | k + 1, key :: md :: pl :: rest =>
+    match Bytes.ofHex key, parseKvmdTok md, Bytes.ofHex pl, parsePEntries k rest with
+    | some key, some md, some pl, some (es, r) => some ({ key := key, md := md, payload := pl } :: es, r)
+    | _, _, _, _ => none
+  | _, _ => none
+
+def fmtPEntry (e : PEntry) : String :=
+  s!"{Bytes.toHexTok e.key} {fmtKvmdTok e.md} {Bytes.toHexTok e.payload}"
+
+def xerrStr : XErr → String
+  | .illegal => "err:illegal"
+  | .corrupted => "err:corrupted"
+  | .newerVersion => "err:newer"
+  | .illegalTruncation => "err:illegaltruncation"
+  | .mdUnsupported => "err:mdunsupported"
+  | .panic => "panic"
+  | _ => "err:other"
 
 def step (s : St) : List String → St × String
   | ["kenc", ty, ml, v] =>
@@ -204,6 +240,30 @@ def step (s : St) : List String → St × String
   | ["hdr.dec", h] =>
     match Bytes.ofHex h with
     | some b => (s, match hdrReadFrom b with | .ok hd => "ok " ++ fmtHdr hd | .error f => faultStr f)
+    | none => (s, "bad-op")
+  -- ExportTx framing: header (as for hdr.enc), truncation flag, k entries `key kvmd payload`
+  | "xp.enc" :: id :: ts :: bl :: blRoot :: prevAlh :: ver :: mdk :: mt :: me :: n :: eh :: tr :: k :: rest =>
+    match id.toNat?, ts.toInt?, bl.toNat?, Bytes.ofHex blRoot, Bytes.ofHex prevAlh, ver.toInt?, n.toInt?, Bytes.ofHex eh with
+    | some id, some ts, some bl, some blRoot, some prevAlh, some ver, some n, some eh =>
+      let md : Option (Option TxMd) := if mdk == "nil" then some none else (parseTxMd mt me).map some
+      match md, k.toNat? with
+      | some md, some k =>
+        match parsePEntries k rest with
+        | some (es, []) =>
+          let h : TxHdr := { id := id, ts := ts, blTxID := bl, blRoot := blRoot, prevAlh := prevAlh, version := ver, md := md, nentries := n, eh := eh }
+          (s, match exportTx { hdr := h, entries := es, truncated := tr == "1" } with
+            | .ok b => s!"ok {Bytes.toHexTok b}"
+            | .error f => faultStr f)
+        | _ => (s, "bad-op")
+      | _, _ => (s, "bad-op")
+    | _, _, _, _, _, _, _, _ => (s, "bad-op")
+  -- the parsing part of ReplicateTx
+  | ["xp.dec", h] =>
+    match Bytes.ofHex h with
+    | some b =>
+      (s, match parseExported b with
+        | .ok p => s!"ok {fmtHdr p.hdr} {b01 p.truncated} {p.entries.length}" ++ String.join (p.entries.map (fun e => " " ++ fmtPEntry e))
+        | .error e => xerrStr e)
     | none => (s, "bad-op")
   | _ => (s, "bad-op")
 
